@@ -145,6 +145,60 @@ theorem symlink_post (c : Cfg) (hc : c.posix = false) (fs fs' : FS) (m : Mutatio
   · rw [hsh.sym k]; exact hsym
   · rw [hsh.target k]; exact htg
 
+/-! ## witnesses of the recorded findings (the full statements fail on the model the driver runs) -/
+
+def wCfg : Cfg := Cfg.impl .tarfs
+
+/-- a tree with a directory `b`, a file `b/t` (mode 0755, root) and a package file `b/p` with body `x` -/
+def wFS : FS :=
+  (run wCfg FS.empty
+    [.mkdirAll ['b'] 0o755, .writeFile ['b', '/', 't'] ['x'] 0o755,
+     .writeHeader { typeflag := 48, name := ['b', '/', 'p'], mode := 0o644, size := 1, checksum := some ['s'],
+                    content := ['x'], pkgName := ['p'], pkgOrigin := ['p'] }]).1
+
+def wSymlink : Mutation :=
+  { path := ['l'], type := tSymlink, uid := 1000, gid := 1000, perms := 0o777, source := ['b', '/', 't'] }
+
+/-- **F13a** (negation of "the symlink entry has the declared owner"): the mutation succeeds, the
+link entry keeps owner 0:0, and the declared owner lands on the link's target. -/
+theorem symlink_owner_lands_on_target :
+    (mutateOne wCfg wFS wSymlink).2 = none ∧
+    (entryOf wCfg (mutateOne wCfg wFS wSymlink).1 wSymlink.path).map
+      (fun k => ((mutateOne wCfg wFS wSymlink).1.node k).uid) = some 0 ∧
+    (follow wCfg (mutateOne wCfg wFS wSymlink).1 wSymlink.source).map
+      (fun k => ((mutateOne wCfg wFS wSymlink).1.node k).uid) = some 1000 ∧
+    specMutation wCfg (mutateOne wCfg wFS wSymlink).1 wSymlink ≠ [] := by decide +kernel
+
+def wEmpty : Mutation := { path := ['b', '/', 'p'], type := tEmptyFile, perms := 0o644 }
+
+/-- **F13d** (negation of "an empty file is present"): on a path a package ships with a body the
+mutation succeeds and readers still get the package's bytes (size 1, not 0). -/
+theorem empty_file_keeps_package_content :
+    (mutateOne wCfg wFS wEmpty).2 = none ∧
+    (follow wCfg (mutateOne wCfg wFS wEmpty).1 wEmpty.path).map
+      (fun k => effectiveSize wCfg ((mutateOne wCfg wFS wEmpty).1.node k)) = some 1 ∧
+    readText wCfg (mutateOne wCfg wFS wEmpty).1 wEmpty.path = ['x'] ∧
+    specMutation wCfg (mutateOne wCfg wFS wEmpty).1 wEmpty ≠ [] := by decide +kernel
+
+/-- on a path that is not package-backed the same mutation meets the whole post-condition -/
+theorem empty_file_ok_example :
+    specMutation wCfg (mutateOne wCfg wFS { wEmpty with path := ['b', '/', 't'] }).1 { wEmpty with path := ['b', '/', 't'] } = [] ∧
+    specMutation wCfg (mutateOne wCfg wFS { wEmpty with path := ['n', '/', 'e'] }).1 { wEmpty with path := ['n', '/', 'e'] } = [] := by
+  decide +kernel
+
+/-- **F13b before the repair** (`fs.FileMode(perms)`): 0o4755 reached the node as 0o755 -/
+theorem setuid_dropped_before_repair :
+    unixPerm (typeKeep 0o644 (permModeOld 0o4755)) = 0o755 ∧ wantPerm 0o4755 = 0o4755 ∧
+    unixPerm (typeKeep 0o644 (permMode 0o4755)) = 0o4755 := by decide
+
+/-- hard links inside the file system are real (the recorded finding F13c is about the layer
+writer, which emits the second name as a copy): the whole post-condition holds on the example -/
+theorem hardlink_ok_example :
+    specMutation wCfg
+      (mutateOne wCfg wFS { path := ['h'], type := tHardlink, uid := 7, gid := 8, perms := 0o600, source := ['b', '/', 't'] }).1
+      { path := ['h'], type := tHardlink, uid := 7, gid := 8, perms := 0o600, source := ['b', '/', 't'] } = [] := by
+  decide +kernel
+
 /-! ## ties: the source the model was written from (regenerated on every run) -/
 
 /-- the literals of the model are the literals of `userToUserEntry` / `mutateAccounts` -/
